@@ -29,10 +29,11 @@ WOf(L) == [txs |-> [k \in DOMAIN L.txs |-> TxOf(L.txs[k])],
            cfg |-> CfgOf(L.cfg),
            conns |-> ToSet(L.conns),
            nconn |-> L.nconn,
+           q |-> NoQ,
            dev |-> [up |-> L.dev.up, vals |-> L.dev.vals, boot |-> L.dev.boot, maxeid |-> L.dev.maxeid, failq |-> L.dev.failq]]
 
 TraceInit == /\ l = 0
-             /\ w = InitW
+             /\ w = Strip(InitW)
              /\ hist = << >>
              /\ stable = FALSE
              /\ drift = FALSE
@@ -49,7 +50,7 @@ StepOf(a) ==
 
 Conforms(W, a, W2) ==
     \/ a.k \in {"init", "drain", "heal", "wdrain", "skip"}   \* skip: a scheduled reconcile whose object no real watcher had woken
-    \/ \E pick \in (IF W2.conns = {} THEN {"c1"} ELSE W2.conns) : Step(W, StepOf(a), pick) = W2
+    \/ \E pick \in (IF W2.conns = {} THEN {"c1"} ELSE W2.conns) : Strip(Step(W, StepOf(a), pick)) = W2
 
 TraceNext ==
     /\ l < Len(Trace)
